@@ -4,7 +4,7 @@ reference reading from a positional symbol table (C scoping).
 A program is a list of tokens (joined by blanks, so token k of the text is lexed token k, 1-based); `sites` lists
 (form, first token, last token, name, expected reading or None when the name is undeclared) for every ambiguous construct."""
 
-FORMS_STMT = ["mul", "call"]                  # A * b ;     A ( b ) ;
+FORMS_STMT = ["mul", "call", "mul", "call", "mul2"]     # A * b ;   A ( b ) ;   A * b , * c ;  (several declarators)
 FORMS_EXPR = ["cast-", "cast+", "cast*", "cast&", "sizeof", "alignof", "tail-", "tail+", "nest-", "nest+", "nest*", "nest&"]
 
 
@@ -179,6 +179,16 @@ class P:
             self.sites.append(("mul", first, last, a, want))
             if cat == "type" and not in_for:
                 self.declare(b, "obj")
+        elif form == "mul2":
+            # A * b , * c ;  — with A a typedef name: a declaration of two pointers.  A is a typedef of its own, declared right here and used by no other
+            # site, and b, c are not entered into the reference symbol table: the implementation reads the statement as an expression (the known
+            # finding), and names that the two sides see differently would make every later site on them disagree as well
+            a = self.fresh("M")
+            self.emit("typedef", "int", a, ";")
+            first = len(self.toks) + 1
+            b, c2 = self.fresh("d"), self.fresh("d")
+            self.emit(a, "*", b, ",", "*", c2, ";")
+            self.sites.append(("mul2", first, len(self.toks), a, "decl"))
         else:
             a = self.pick("callable")
             cat = self.look(a)
